@@ -17,7 +17,7 @@ import (
 func init() {
 	register(&Spec{ID: "C10", Title: "No server input can crash the client", Run: runC10,
 		Meta: core.Meta{
-			Explanation: "Panic-site obligations over everything reachable from the reader goroutine. Scope: module functions reachable (VTA call graph, plus formatting edges: every String/Error method of the parsing packages) from (*Conn).ReadFrom, (*Channel).WritePacket, DataType.GoValue and rsaEncrypt; generated stringer files are excluded. R10.1: every slice/string index and every slice expression in scope is proved in range from length facts (allocation, constant-bound slicing, callee post-conditions, dominating len tests, lowered `switch len(bs)`), from induction/range-loop patterns, or is listed in the reviewed-invariant table together with the guard it relies on, which is re-checked on every run; a site that is neither is a violation (so a new unguarded index and the removal of an existing guard are both reported). R10.2: every encoding/binary ByteOrder UintN/PutUintN call (interface calls the compiler's bounds-check list does not contain) has len >= N. R10.3: no comma-less type assertion, explicit panic, or division by a possibly-zero value in scope. R10.4 (allocation provenance): the size of every make([]T, n) in scope is a constant, a length of received data, a <= 16-bit wire integer, or is dominated by a test against the bytes actually available; wire-controlled sizes that can be negative are violations. R10.5: the callee post-condition used by R10.1/R10.2 — PacketQueue.Bytes returns a slice of exactly n bytes on every return — is verified structurally; the DataType length oracle's premises (goValue's only caller is GoValue, behind the ByteSize test) are verified. R10.6: precision and scale copied from the wire into a Decimal are validated (sanity) before the value leaves the parser.",
+			Explanation: "Panic-site obligations over everything reachable from the reader goroutine. Scope: module functions reachable (VTA call graph, plus formatting edges: every String/Error method of the parsing packages) from (*Conn).ReadFrom, (*Channel).WritePacket, DataType.GoValue and rsaEncrypt; generated stringer files are excluded. R10.1: every slice/string index and every slice expression in scope is proved in range from length facts (allocation, constant-bound slicing, callee post-conditions, dominating len tests, lowered `switch len(bs)`), from induction/range-loop patterns, or is listed in the reviewed-invariant table together with the guard it relies on, which is re-checked on every run; a site that is neither is a violation (so a new unguarded index and the removal of an existing guard are both reported). R10.2: every encoding/binary ByteOrder UintN/PutUintN call (interface calls the compiler's bounds-check list does not contain) has len >= N. R10.3: no comma-less type assertion, explicit panic, or division by a possibly-zero value in scope. R10.4 (allocation provenance): the size of every make([]T, n) in scope is a constant, a length of received data, a <= 16-bit wire integer, or is dominated by a test against the bytes actually available; wire-controlled sizes that can be negative are violations. R10.5: the callee post-condition used by R10.1/R10.2 — PacketQueue.Bytes returns a slice of exactly n bytes on every return — is verified structurally; the DataType length oracle's premises (goValue's only caller is GoValue, behind the ByteSize test) are verified. R10.6: precision and scale copied from the wire into a Decimal are validated (sanity) before the value leaves the parser. R10.7: every loop in a wire-reading function performs a wire read per iteration or iterates over data already held. R10.8: a slice of pointers/interfaces allocated from a wire count and filled in a counted loop is filled completely before the parse can succeed (the loop's only normal exit is `i < n` turning false), so no nil entry is dereferenced by a later package. R10.9: the format pointers ParamsPackage.paramFmt/rowFmt, which come from whatever package the server sent before, are only dereferenced under a != nil test of that field.",
 			NotDecided:  "Nil dereferences (nilaway's two reports on the pinned tree are infeasible), panics inside the standard library, stack exhaustion and unbounded CPU are not decided.",
 			Assumptions: []string{"the reviewed-invariant table entries (each with the guard it names)", "math/big, bytes, encoding/binary do not panic on the inputs they are given"},
 		}})
@@ -117,6 +117,8 @@ func runC10(r *core.Run) {
 	r.Rule("R10.4", "allocation sizes are bounded by what was received", 6, true)
 	r.Rule("R10.5", "premises: Bytes(n) returns n bytes; goValue only behind GoValue's size test", 3, false)
 	r.Rule("R10.6", "wire precision/scale validated before a Decimal is produced", 1, false)
+	r.Rule("R10.8", "slices sized from a wire count are filled completely before the parse succeeds", 2, false)
+	r.Rule("R10.9", "the format pointers taken from the previous package are nil-checked before use", 2, false)
 	r.Rule("R10.7", "parser loops consume input or range over data already held", 8, false)
 
 	roots := []*ssa.Function{
@@ -182,6 +184,8 @@ func runC10(r *core.Run) {
 	c10Premises(r)
 	c10Decimal(r)
 	c10Loops(r)
+	c10FillCompletely(r)
+	c10FormatPointers(r)
 }
 
 func c10Reviewed(p *core.Prog) []reviewedSite {
@@ -982,3 +986,124 @@ func loopCond(h *ssa.BasicBlock) ssa.Value {
 	}
 	return ssa.NewConst(nil, types.Typ[types.Bool])
 }
+
+// c10FillCompletely: where a reader allocates field = make([]T, n) with a
+// pointer/interface element type and fills it in a counted loop, the loop's
+// only normal exit is `i < n` turning false: no element is left nil when the
+// parse succeeds (a later package dereferences the elements).
+func c10FillCompletely(r *core.Run) {
+	p := r.Prog
+	ef := newErrFlow(p)
+	le := newLenEngine(p)
+	for _, fn := range ef.SortedW() {
+		if fn.Blocks == nil || !core.InModule(fn) {
+			continue
+		}
+		for _, b := range fn.Blocks {
+			for _, in := range b.Instrs {
+				ia, ok := in.(*ssa.IndexAddr)
+				if !ok {
+					continue
+				}
+				// a store of an element into a field slice inside a loop
+				stored := false
+				for _, ref := range *ia.Referrers() {
+					if st, isSt := ref.(*ssa.Store); isSt && st.Addr == ssa.Value(ia) {
+						stored = true
+					}
+				}
+				if !stored {
+					continue
+				}
+				f, _ := core.FieldLoad(ia.X)
+				if f == nil {
+					continue
+				}
+				sl, isSl := f.Type().Underlying().(*types.Slice)
+				if !isSl {
+					continue
+				}
+				switch sl.Elem().Underlying().(type) {
+				case *types.Pointer, *types.Interface:
+				default:
+					continue
+				}
+				n, hasN := le.lenEqualsValue(ia.X)
+				h, loop := core.InnermostLoop(b)
+				if !hasN || loop == nil {
+					continue
+				}
+				key := core.FuncName(fn) + ": " + f.Name() + " filled up to its allocated length"
+				// exits of the loop other than returns of an error: must be the false edge of `i < n`
+				ok2, why := true, ""
+				for lb := range loop {
+					for _, s := range lb.Succs {
+						if loop[s] {
+							continue
+						}
+						if ret, isRet := s.Instrs[len(s.Instrs)-1].(*ssa.Return); isRet {
+							rv := core.RetVals(ret)
+							if len(rv) > 0 && !core.IsNil(rv[len(rv)-1]) && core.IsErrorType(rv[len(rv)-1].Type()) {
+								continue
+							}
+						}
+						iff, isIf := lb.Instrs[len(lb.Instrs)-1].(*ssa.If)
+						good := false
+						if isIf && lb == h && s == lb.Succs[1] {
+							if bo, isB := iff.Cond.(*ssa.BinOp); isB && bo.Op == token.LSS && bo.X == ia.Index && le.sameInt(bo.Y, n) {
+								good = true
+							}
+						}
+						if !good {
+							ok2, why = false, "the loop that fills "+f.Name()+" can end before the index reaches the allocated length (its exit is not the plain `i < n` test): the parse succeeds with nil entries, which the next ROW/PARAMS package dereferences in the reader goroutine"
+						}
+					}
+				}
+				r.Check(ok2, "R10.8", key, ia.Pos(), "the only normal exit of the fill loop is i >= n", why)
+			}
+		}
+	}
+}
+
+// c10FormatPointers: every dereference of ParamsPackage.paramFmt / rowFmt
+// (set from whatever package the server sent before) is dominated by a
+// != nil test of that field.
+func c10FormatPointers(r *core.Run) {
+	p := r.Prog
+	fields := map[*types.Var]bool{p.Field("tds", "ParamsPackage", "paramFmt"): true, p.Field("tds", "ParamsPackage", "rowFmt"): true}
+	for _, fn := range p.ModuleFuncs() {
+		if fn.Pkg == nil || fn.Pkg.Pkg.Path() != core.Module+"/tds" {
+			continue
+		}
+		for _, b := range fn.Blocks {
+			for _, in := range b.Instrs {
+				fa, ok := in.(*ssa.FieldAddr)
+				if !ok {
+					continue
+				}
+				// fa.X is a load of pkg.rowFmt / pkg.paramFmt ?
+				f, base := core.FieldLoad(fa.X)
+				if !fields[f] {
+					continue
+				}
+				key := core.FuncName(fn) + ": use of " + f.Name() + "." + core.FieldOfAddr(fa).Name()
+				guarded := false
+				for _, g := range core.GuardsAt(fa) {
+					bo, isB := g.Cond.(*ssa.BinOp)
+					if !isB || !core.IsNil(bo.Y) {
+						continue
+					}
+					f2, base2 := core.FieldLoad(bo.X)
+					if f2 == f && sameBase(addrOf(base2), addrOf(base)) {
+						if (bo.Op == token.NEQ && g.Pol) || (bo.Op == token.EQL && !g.Pol) {
+							guarded = true
+						}
+					}
+				}
+				r.Check(guarded, "R10.9", key, fa.Pos(), "dominated by "+f.Name()+" != nil", "the format pointer "+f.Name()+" is dereferenced without a nil test: a server that sends ROW/PARAMS after a package that carries no format makes the reader goroutine dereference nil")
+			}
+		}
+	}
+}
+
+func addrOf(v ssa.Value) ssa.Value { return v }
